@@ -112,6 +112,12 @@ class DPTBase(ABC):
         """
         if cls.payload_type is DPTArray and isinstance(payload, DPTArray):
             if cls.payload_length == len(payload.value):
+                if not all(isinstance(octet, int) for octet in payload.value):
+                    # DPTArray only checks the range of integers
+                    raise CouldNotParseTelegram(
+                        f"Invalid payload for {cls.dpt_name()} - not octets",
+                        payload=payload,
+                    )
                 return payload.value
 
             raise CouldNotParseTelegram(
